@@ -12,7 +12,11 @@ translator) and (b) an independent python reference of MLIR semantics on bit pat
   * boundary + random operands for i8/i16/i32/i64/index (both representatives),
   * the helpers of comparisons.py called directly (exhaustive small widths, random large),
   * generated multi-op programs: func with arith ops, scf.if / scf.for, func.call, cf.br / cf.cond_br
-    diamonds and loops, against the Coq machine C15/Model.v (control part hand-modelled, arithmetic =
+    diamonds and loops; scf.for over index/i64 with boundary-size lb/ub/step (2^31, 2^53+-1, 2^62, INT64
+    MIN/MAX, random) and true trip count 0..4; two nested cf loops (optionally a diamond in the inner body)
+    whose inner blocks use outer-loop values by dominance; nested scf.for/scf.if programs and the output of the
+    real convert-scf-to-cf pass on them; all run under an op budget (non-termination = failure), against the
+    Coq machine C15/Model.v (control part hand-modelled, arithmetic =
     the generated definitions) and the reference evaluator,
   * float ops (addf subf mulf minimumf maximumf cmpf) on f64 and f32 bit patterns against exact rational
     arithmetic rounded to the format (oracle only; no Coq model of floats).
@@ -743,6 +747,197 @@ class ProgGen:
         return {"funcs": [main] + self.funcs, "inputs": inputs, "shape": shape}
 
 
+HUGE = [1, 2, 3, 2 ** 31 - 1, 2 ** 31, 2 ** 31 + 1, 2 ** 32, 2 ** 52, 2 ** 53 - 1, 2 ** 53, 2 ** 53 + 1, 2 ** 54 + 2, 2 ** 62 - 1, 2 ** 62,
+        2 ** 62 + 1, 2 ** 63 - 2, 2 ** 63 - 1]
+
+
+def gen_huge_for(rng, nid0=0):
+    """scf.for over index / i64 with boundary-size lb, ub, step and a TRUE trip count of 0..4; the iter_args
+    depend on the induction variable and count the iterations"""
+    MIN, MAX = -(1 << 63), (1 << 63) - 1
+    ty = rng.choice(["index", 64])
+    while True:
+        n = rng.choice([0, 1, 2, 2, 3, 3, 4])
+        step = rng.choice(HUGE + HUGE[8:] * 2 + [rng.randrange(1 << 52, 1 << 63) for _ in range(6)])
+        lb = rng.choice([MIN, MIN + 1, -(1 << 62), -(1 << 53) - 1, -(1 << 53), -(1 << 31), -1, 0, 1, 1 << 31, 1 << 53, (1 << 53) + 1,
+                         1 << 62, MAX - 1, MAX] + [rng.randrange(MIN, MAX + 1) for _ in range(4)])
+        if n == 0:
+            ub = rng.choice([lb, lb - 1, MIN, rng.randrange(MIN, lb + 1)])
+            ub = max(MIN, ub)
+            break
+        last = lb + (n - 1) * step            # value of the last iteration, must exist and be < ub <= MAX
+        if last >= MAX:
+            continue
+        lo, hi = last + 1, min(lb + n * step, MAX)
+        ub = rng.choice([lo, lo, hi, rng.randrange(lo, hi + 1)])
+        break
+    ids = iter(range(nid0 + 1, nid0 + 100))
+    c_lb, c_ub, c_st, a0, k0, one = (next(ids) for _ in range(6))
+    iv, acc, cnt = next(ids), next(ids), next(ids)
+    t1, acc2, cnt2 = next(ids), next(ids), next(ids)
+    r1, r2 = next(ids), next(ids)
+    mix = rng.choice(["xori", "addi", "subi"])
+    body = {"args": [[iv, ty], [acc, ty], [cnt, ty]],
+            "ops": [["bin", t1, "muli", ty, acc, one if False else acc] if False else ["bin", t1, "addi", ty, acc, iv],
+                    ["bin", acc2, mix, ty, t1, iv] if mix != "addi" else ["bin", acc2, "addi", ty, t1, cnt],
+                    ["bin", cnt2, "addi", ty, cnt, one]],
+            "term": ["ret", [acc2, cnt2]]}
+    ops = [["const", c_lb, ty, lb], ["const", c_ub, ty, ub], ["const", c_st, ty, step],
+           ["const", a0, ty, rng.choice([0, 1, -1, 12345])], ["const", k0, ty, 0], ["const", one, ty, 1],
+           ["for", [r1, r2], [ty, ty], c_lb, c_ub, c_st, [a0, k0], body]]
+    main = {"rets": [ty, ty], "blocks": [{"args": [], "ops": ops, "term": ["ret", [r1, r2]]}]}
+    return {"funcs": [main], "inputs": [], "shape": "huge-for", "true_trip_count": n}
+
+
+def gen_nested_cf(rng):
+    """two nested counting loops in cf form.  Induction variables and accumulators travel through block
+    arguments; values defined in OUTER-loop blocks (the outer induction variable i, 10*i, entry constants)
+    are used in inner-loop blocks and in the outer latch by dominance only.  Optionally a diamond inside the
+    inner body.  acc += 10*i + j."""
+    ty = rng.choice([8, 32, "index", 64])
+    n_out, n_in = rng.randint(0, 3), rng.randint(0, 3)
+    ids = iter(range(1, 200))
+    nx = lambda: next(ids)
+    x_in = nx()
+    c0, c1, c10, cn, cm, acc0 = nx(), nx(), nx(), nx(), nx(), nx()
+    i, acc = nx(), nx()
+    ci, ten_i = nx(), nx()
+    j, acc2 = nx(), nx()
+    cj = nx()
+    j3, acc3 = nx(), nx()
+    t, acc4, j4 = nx(), nx(), nx()
+    acc5, i2 = nx(), nx()
+    acc6 = nx()
+    k = rng.choice([10, 10, 3, 7])
+    mix = rng.choice(["addi", "addi", "xori", "subi"])
+    entry = {"args": [[x_in, ty]], "ops": [["const", c0, ty, 0], ["const", c1, ty, 1], ["const", c10, ty, k],
+                                            ["const", cn, ty, n_out], ["const", cm, ty, n_in],
+                                            ["bin", acc0, "addi", ty, x_in, c0]],
+             "term": ["br", 1, [c0, acc0]]}
+    oh = {"args": [[i, ty], [acc, ty]], "ops": [["cmpi", ci, "slt", ty, i, cn], ["bin", ten_i, "muli", ty, i, c10]],
+          "term": ["condbr", ci, 2, [c0, acc], 5, [acc]]}
+    ih = {"args": [[j, ty], [acc2, ty]], "ops": [["cmpi", cj, rng.choice(["slt", "ne"]), ty, j, cm]],
+          "term": ["condbr", cj, 3, [j, acc2], 4, [acc2]]}
+    blocks = [entry, oh, ih, None, None, None]
+    if rng.random() < 0.5:
+        ib = {"args": [[j3, ty], [acc3, ty]],
+              "ops": [["bin", t, "addi", ty, ten_i, j3], ["bin", acc4, mix, ty, acc3, t], ["bin", j4, "addi", ty, j3, c1]],
+              "term": ["br", 2, [j4, acc4]]}
+        blocks[3] = ib
+    else:
+        # diamond inside the inner body: even/odd j take different arms, both use outer values by dominance
+        par, cpar, va, vb, m = nx(), nx(), nx(), nx(), nx()
+        ib = {"args": [[j3, ty], [acc3, ty]],
+              "ops": [["bin", t, "addi", ty, ten_i, j3], ["bin", par, "andi", ty, j3, c1], ["cmpi", cpar, "eq", ty, par, c0]],
+              "term": ["condbr", cpar, 6, [], 7, []]}
+        arm_a = {"args": [], "ops": [["bin", va, "addi", ty, t, i]], "term": ["br", 8, [va]]}
+        arm_b = {"args": [], "ops": [["bin", vb, "subi", ty, t, ten_i]], "term": ["br", 8, [vb]]}
+        merge = {"args": [[m, ty]], "ops": [["bin", acc4, mix, ty, acc3, m], ["bin", j4, "addi", ty, j3, c1]],
+                 "term": ["br", 2, [j4, acc4]]}
+        blocks[3] = ib
+        blocks += [arm_a, arm_b, merge]
+    blocks[4] = {"args": [[acc5, ty]], "ops": [["bin", i2, "addi", ty, i, c1]], "term": ["br", 1, [i2, acc5]]}
+    blocks[5] = {"args": [[acc6, ty]], "ops": [], "term": ["ret", [acc6]]}
+    main = {"rets": [ty], "blocks": blocks}
+    w = width(ty)
+    return {"funcs": [main], "inputs": [rng.choice([0, 1, -1, 5, (1 << (w - 1)) - 1])], "shape": "nested-cf"}
+
+
+def gen_scf_nest(rng):
+    """nested scf.for / scf.if with small bounds where inner bodies use outer induction variables and outer
+    iter_args directly (input of the real convert-scf-to-cf pass)"""
+    ty = rng.choice([32, "index", 64, 8])
+    ids = iter(range(1, 200))
+    nx = lambda: next(ids)
+    x = nx()
+    c0, c1, ck, n1, n2, s1 = nx(), nx(), nx(), nx(), nx(), nx()
+    i, a = nx(), nx()
+    j, b = nx(), nx()
+    t1, t2, b2 = nx(), nx(), nx()
+    inner_res = nx()
+    a2 = nx()
+    res = nx()
+    ops = [["const", c0, "index", 0], ["const", c1, "index", 1], ["const", ck, ty, rng.choice([10, 3, 7])],
+           ["const", n1, "index", rng.randint(0, 3)], ["const", n2, "index", rng.randint(0, 3)],
+           ["const", s1, "index", rng.choice([1, 1, 2])]]
+    ic, jc = nx(), nx()
+    inner_ops = [["cast", jc, "index", ty, j] if ty != "index" else ["bin", jc, "addi", "index", j, c0],
+                 ["bin", t1, "muli", ty, ic, ck], ["bin", t2, "addi", ty, t1, jc]]
+    if rng.random() < 0.5:
+        inner_ops.append(["bin", b2, rng.choice(["addi", "xori"]), ty, b, t2])
+    else:
+        cc, y1, y2 = nx(), nx(), nx()
+        inner_ops += [["cmpi", cc, rng.choice(["slt", "eq", "sge"]), ty, jc, ic],
+                      ["if", [b2], [ty], cc,
+                       {"args": [], "ops": [["bin", y1, "addi", ty, b, t2]], "term": ["ret", [y1]]},
+                       {"args": [], "ops": [["bin", y2, "subi", ty, b, x]], "term": ["ret", [y2]]}]]
+    inner = {"args": [[j, "index"], [b, ty]], "ops": inner_ops, "term": ["ret", [b2]]}
+    outer_ops = [["cast", ic, "index", ty, i] if ty != "index" else ["bin", ic, "addi", "index", i, c0],
+                 ["for", [inner_res], [ty], c0, n2, c1, [a], inner],
+                 ["bin", a2, "addi", ty, inner_res, ic]]
+    outer = {"args": [[i, "index"], [a, ty]], "ops": outer_ops, "term": ["ret", [a2]]}
+    ops.append(["for", [res], [ty], c0, n1, s1, [x], outer])
+    main = {"rets": [ty], "blocks": [{"args": [[x, ty]], "ops": ops, "term": ["ret", [res]]}]}
+    w = width(ty)
+    return {"funcs": [main], "inputs": [rng.choice([0, 1, -1, 9, (1 << (w - 1)) - 1])], "shape": "scf-nest"}
+
+
+def lower_scf_to_cf(case):
+    """run the REAL convert-scf-to-cf pass on the program and read the result back as a program description
+    (cf form), so that it goes through the same implementation / Coq machine / reference pipeline"""
+    from xdsl.context import Context
+    from xdsl.dialects import arith, cf, func
+    from xdsl.dialects.builtin import IndexType, IntegerType
+    from xdsl.transforms.convert_scf_to_cf import ConvertScfToCf
+    module, _ = build_module(case)
+    ConvertScfToCf().apply(Context(), module)
+    module.verify()
+    funcs = []
+    for fop in module.ops:
+        assert isinstance(fop, func.FuncOp)
+        ids, n = {}, [0]
+
+        def vid(v):
+            if v not in ids:
+                n[0] += 1
+                ids[v] = n[0]
+            return ids[v]
+
+        def ty(t):
+            if isinstance(t, IndexType): return "index"
+            assert isinstance(t, IntegerType)
+            return t.width.data
+        blks = list(fop.body.blocks)
+        bidx = {b: k for k, b in enumerate(blks)}
+        out = []
+        for b in blks:
+            ops, term = [], None
+            for o in b.ops:
+                if isinstance(o, arith.ConstantOp):
+                    ops.append(["const", vid(o.result), ty(o.result.type), o.value.value.data])
+                elif isinstance(o, arith.CmpiOp):
+                    ops.append(["cmpi", vid(o.result), CMPI[o.predicate.value.data], ty(o.lhs.type), vid(o.lhs), vid(o.rhs)])
+                elif isinstance(o, arith.IndexCastOp):
+                    ops.append(["cast", vid(o.result), ty(o.input.type), ty(o.result.type), vid(o.input)])
+                elif o.name.startswith("arith.") and o.name.split(".", 1)[1] in BINOPS:
+                    ops.append(["bin", vid(o.results[0]), o.name.split(".", 1)[1], ty(o.results[0].type), vid(o.operands[0]), vid(o.operands[1])])
+                elif isinstance(o, func.CallOp):
+                    ops.append(["call", [vid(r) for r in o.results], [ty(r.type) for r in o.results],
+                                int(o.callee.string_value()[1:]), [vid(a) for a in o.arguments]])
+                elif isinstance(o, func.ReturnOp):
+                    term = ["ret", [vid(a) for a in o.arguments]]
+                elif isinstance(o, cf.BranchOp):
+                    term = ["br", bidx[o.successor], [vid(a) for a in o.arguments]]
+                elif isinstance(o, cf.ConditionalBranchOp):
+                    term = ["condbr", vid(o.cond), bidx[o.then_block], [vid(a) for a in o.then_arguments],
+                            bidx[o.else_block], [vid(a) for a in o.else_arguments]]
+                else:
+                    raise ValueError(f"unexpected op after convert-scf-to-cf: {o.name}")
+            out.append({"args": [[vid(a), ty(a.type)] for a in b.args], "ops": ops, "term": term})
+        funcs.append({"rets": [ty(t) for t in fop.function_type.outputs.data], "blocks": out})
+    return {"funcs": funcs, "inputs": list(case["inputs"]), "shape": "scf-to-cf-lowered", "source": case}
+
+
 def ty_of_ids(prog):
     tys = {}
 
@@ -767,6 +962,28 @@ def ty_of_ids(prog):
         for b in f["blocks"]:
             blk(b)
     return tys
+
+
+def rpo(blocks):
+    """reverse post-order of the CFG from block 0, then the unreachable blocks"""
+    seen, post = set(), []
+
+    def succs(b):
+        t = b["term"]
+        return [t[1]] if t[0] == "br" else [t[2], t[4]] if t[0] == "condbr" else []
+    stack = [(0, iter(succs(blocks[0])))]
+    seen.add(0)
+    while stack:
+        n, it = stack[-1]
+        for m in it:
+            if m not in seen:
+                seen.add(m)
+                stack.append((m, iter(succs(blocks[m]))))
+                break
+        else:
+            post.append(n)
+            stack.pop()
+    return list(reversed(post)) + [i for i in range(len(blocks)) if i not in seen]
 
 
 def build_module(prog):
@@ -830,9 +1047,8 @@ def build_module(prog):
     for k, f in enumerate(prog["funcs"]):
         blocks = [Block(arg_types=[xty(t) for _, t in b["args"]]) for b in f["blocks"]]
         vals = {}
-        # dominance order = list order in the generated shapes
-        for blk, b in zip(blocks, f["blocks"]):
-            fill(blk, b, vals, blocks)
+        for bi in rpo(f["blocks"]):          # definitions before uses: dominators first
+            fill(blocks[bi], f["blocks"][bi], vals, blocks)
         ft = ([xty(t) for _, t in f["blocks"][0]["args"]], [xty(t) for t in f["rets"]])
         fops.append(func.FuncOp(f"f{k}", ft, Region(blocks)))
     return ModuleOp(fops), stored_ok[0]
@@ -947,16 +1163,17 @@ def prog_ref(case):
                     for i, v in zip(o[1], vs): env[i] = v
                 elif k == "for":
                     ctl[0] += 1
-                    lb, ub, st = (sval(64, env[o[j]]) for j in (3, 4, 5))
+                    lw = width(tys[o[3]])
+                    lb, ub, st = (sval(lw, env[o[j]]) for j in (3, 4, 5))
                     if st <= 0:
                         raise Undefined("scf.for step <= 0")
                     acc = [env[i] for i in o[6]]
                     i = lb
+                    # iterations are the mathematical values lb + k*step < ub: since ub <= MAX no executed
+                    # iteration has an out-of-range induction value, whatever lb + k*step does afterwards
                     while i < ub:
-                        acc = run_blocks([o[7]], [pat(64, i)] + acc, env)
+                        acc = run_blocks([o[7]], [pat(lw, i)] + acc, env)
                         i += st
-                        if i >= (1 << 63):
-                            raise Undefined("induction variable overflow")
                     for j, v in zip(o[1], acc): env[j] = v
                 elif k == "call":
                     ctl[0] += 1
@@ -1437,7 +1654,22 @@ def run(ctx: Ctx):
 
     # ---- programs
     g = new_program_generator(rng)
-    progs = [g.program(model_bin) for _ in range(2500 if thorough else 360)]
+    progs = [g.program(model_bin) for _ in range(2500 if thorough else 300)]
+    # scf.for with boundary-size bounds and tiny trip counts; nested cf loops with dominance uses across
+    # blocks; nested scf programs and what the real convert-scf-to-cf pass makes of them
+    k = 6 if thorough else 1
+    progs += [gen_huge_for(rng) for _ in range(70 * k)]
+    progs += [gen_nested_cf(rng) for _ in range(60 * k)]
+    lowering_errors = []
+    for _ in range(30 * k):
+        src = gen_scf_nest(rng)
+        progs.append(src)
+        try:
+            progs.append(lower_scf_to_cf(src))
+        except Exception as e:          # the pass (or the read-back) failed on a valid program
+            lowering_errors.append(repr(e)[:200])
+    if lowering_errors:
+        ctx.coverage["convert-scf-to-cf failures on generated programs (C16 territory, not counted here)"] = lowering_errors[:5]
     shapes = {}
     for p in progs:
         shapes[p["shape"]] = shapes.get(p["shape"], 0) + 1
